@@ -13,6 +13,8 @@ import numpy as np
 def gen_scale_params(rng, K=2):
     # density ≥ 3.5 and shells ≥ 88 volume units in the outer bins: > 255 neighbours j > i of the first particles in one bin
     N = rng.choice([1800, 2000, 2200])
+    if rng.random() < 0.35:
+        N = rng.choice([256, 512, 768, 1024, 2048])          # block boundaries of chunked rewrites
     return {"scale": True, "sseed": rng.randint(0, 10 ** 9), "N": N, "d": 3, "L": "8",
             "rdelta": rng.choice(["0.5", "0.8"]), "K": K}
 
